@@ -809,12 +809,12 @@ def run(ctx):
     rng = ctx.rng
     t0 = time.time()
     if ctx.quick:
-        extra = sorted({tuple(rng.randint(0, 3) for _ in range(5)) for _ in range(160)})
+        extra = sorted({tuple(rng.randint(0, 3) for _ in range(5)) for _ in range(110)})
         layouts, byvar = export_cases(ctx, 4, extra, 2, "design+cases")
-        items = plan(rng, layouts, byvar, 1, 60)
+        items = plan(rng, layouts, byvar, 1, 50)
     else:
-        layouts, byvar = export_cases(ctx, 6, [], 4, "design+cases")
-        items = plan(rng, layouts, byvar, 2, 2500)
+        layouts, byvar = export_cases(ctx, 6, [], 3, "design+cases")
+        items = plan(rng, layouts, byvar, 2, 1200)
     ncases = sum(len(v) for v in byvar.values())
     t1 = time.time()
     check_items(ctx, items, ctx.violation)
@@ -822,7 +822,7 @@ def run(ctx):
     for var in sorted(byvar)[::25]:
         s, o, e = byvar[var][len(byvar[var]) // 2]
         ctx.sample({"sequence": s, "operation": o, "expected": e if e["k"] != "take" else {"k": "take", "v": "(table)"}})
-    nrec = ctx.pick(1500, 20000)
+    nrec = ctx.pick(1200, 20000)
     _, nr = validate_records(ctx, random_records(rng, nrec), ctx.violation)
     ctx.extra["phase_seconds"] = {"tlc_export": round(t1 - t0, 1), "replay": round(t2 - t1, 1), "records": round(time.time() - t2, 1)}
     ctx.exhaustive = False
@@ -871,7 +871,8 @@ def selftest(ctx):
     from ..mutate import source_mutant
     ok = True
     rng = random.Random(11)
-    layouts, byvar = export_cases(ctx, 3, [], 2, "selftest-cases")
+    r0 = random.Random(7)
+    layouts, byvar = export_cases(ctx, 2, sorted({tuple(r0.randint(0, 3) for _ in range(3)) for _ in range(24)}), 2, "selftest-cases")
 
     def subset(ops, n):
         r = random.Random(3)
@@ -885,32 +886,35 @@ def selftest(ctx):
     def report(sig, what, rep):
         found.append(sig)
 
-    def trial(name, cm, ops, expect=True, n=40):
+    def trial(name, cm, ops, expect=True, n=25):
         nonlocal ok
         del found[:]
         items = subset(ops, n)
         with cm:
-            nv = check_items(ctx, items, report, parallel=False)
+            check_items(ctx, items, report, parallel=False)
+        new = [f for f in found if f not in ctx.known]          # the known findings do not count as detection
+        nv = len(new)
         good = (nv > 0) == expect
         ok &= good
         print("mutant %-44s %s (%d violations on %d cases) %s" % (
-            name, ("DETECTED" if nv else "no alarm") + ("" if good else "  <-- WRONG"), nv, len(items), sorted(set(found))[:2]))
+            name, ("DETECTED" if nv else "no alarm") + ("" if good else "  <-- WRONG"), nv, len(items), sorted(set(new))[:2]))
 
     import contextlib
     base = contextlib.nullcontext()
     # the unchanged tree must only show the known findings on these subsets
     del found[:]
-    items = subset({"groupby", "frequencies", "sum", "max", "count", "accumulate", "repartition", "fold"}, 40)
+    items = subset({"groupby", "frequencies", "sum", "accumulate", "repartition", "fold"}, 10)
     check_items(ctx, items, report, parallel=False)
     unknown = sorted(set(f for f in found if f not in ctx.known))
     print("unchanged tree on the self-test subset: %d cases, violations outside known findings: %s" % (len(items), unknown))
     ok &= not unknown
     trial("groupby_tasks: ceil -> floor of the branching k", source_mutant(
-        BC, "groupby_tasks", "k = int(math.ceil(n ** (1 / stages)))", "k = int(math.floor(n ** (1 / stages)))"), {"groupby"}, n=150)
+        BC, "groupby_tasks", "k = int(math.ceil(n ** (1 / stages)))", "k = int(math.floor(n ** (1 / stages)))"), {"groupby"}, n=100)
     trial("merge_frequencies: out[k] += v -> out[k] = v", source_mutant(
         BC, "merge_frequencies", "out[k] += v", "out[k] = v"), {"frequencies", "freq"})
-    trial("empty_safe_apply: drops `not is_last` guard", source_mutant(
-        BC, "empty_safe_apply", "elif not is_last and is_empty(part):", "elif is_empty(part):"), {"sum", "count", "max"})
+    trial("empty_safe_apply: no_result even for the last step", source_mutant(
+        BC, "empty_safe_apply", "            if not is_last:\n                return no_result", "            return no_result"),
+        {"sum", "count", "max"})
     trial("accumulate_part: carries res[0] instead of res[-1]", source_mutant(
         BC, "accumulate_part", "return res[1:], res[-1]", "return res[1:], res[0]"), {"accumulate"})
     trial("split: last piece starts one element late", source_mutant(
